@@ -36,8 +36,15 @@ theorem stepWriter_P (x : MSt) (i : Nat) : (stepWriter x i).P = x.P := by
 theorem winv_stepWriter (x : MSt) (i : Nat) (h : WInv (x.wr i)) : WInv ((stepWriter x i).wr i) := by
   obtain ⟨h1, h2, h3, h4, h5⟩ := h
   unfold stepWriter
-  cases hpc : (x.wr i).pc <;> simp only [hpc] <;> (repeat' split) <;> simp only [updW_same] <;>
-    constructor <;> grind
+  cases hpc : (x.wr i).pc <;> simp only [hpc]
+  case start =>
+    split
+    · simp only [updW_same]; constructor <;> grind
+    · rename_i b rest heq
+      have hb := h1 b (by simp [heq])
+      have hr : ∀ c, c ∈ rest → 1 ≤ c := fun c hc => h1 c (by simp [heq, hc])
+      simp only [updW_same]; constructor <;> grind
+  all_goals ((repeat' split) <;> (try simp only [updW_same]) <;> constructor <;> grind)
 
 theorem tiles_stepWriter (x : MSt) (i : Nat) (hw : WInv (x.wr i)) (ht : Tiles 1 x.allClaims (x.hw + 1)) :
     Tiles 1 (stepWriter x i).allClaims ((stepWriter x i).hw + 1) := by
@@ -47,8 +54,8 @@ theorem tiles_stepWriter (x : MSt) (i : Nat) (hw : WInv (x.wr i)) (ht : Tiles 1 
   rename_i heq
   have hc := hw.cntPos (by simp [hpc])
   have := Tiles.snoc ht ((x.wr i).hwSeen + (x.wr i).count) (x.wr i).count hc (by omega)
-  rw [heq]
-  simpa [Nat.add_assoc] using this
+  rw [heq] at this
+  exact this
 
 theorem minv_stepM (x : MSt) (t : MTid) (h : MInv x) : MInv (stepM x t) := by
   cases t with
